@@ -55,6 +55,7 @@ typedef struct {
   uv_handle_t* ptr;
   int fd_a, fd_b;     /* poll: socketpair (a is watched) */
   int bound;          /* tcp/pipe/udp: socket exists */
+  int conn_pending;   /* pipe: a connect request is outstanding */
   char path[200];     /* pipe */
 } hent;
 typedef struct { int kind; int state; void* ptr; int handle; } rent;   /* kind 0 = work, 1 = udp_send */
@@ -254,6 +255,10 @@ static void req_done(const char* kind, int r, int status) {
 }
 static void after_work_cb(uv_work_t* req, int status) { owed_works--; req_done("work", ridof(req), status); }
 static void send_cb(uv_udp_send_t* req, int status) { req_done("udp_send", ridof(req), status); }
+static void connect_cb(uv_connect_t* req, int status) { int r = ridof(req); if (R[r].handle >= 0) H[R[r].handle].conn_pending = 0; req_done("connect", r, status); }
+static void gai_cb(uv_getaddrinfo_t* req, int status, struct addrinfo* res) { (void) req; (void) status; (void) res; }
+static void gni_cb(uv_getnameinfo_t* req, int status, const char* h, const char* sv) { (void) req; (void) status; (void) h; (void) sv; }
+static void rnd_cb(uv_random_t* req, int status, void* buf, size_t n) { (void) req; (void) status; (void) buf; (void) n; }
 
 /* ------------------------------------------------------------------ ops */
 static int count_fds(void) {
@@ -323,6 +328,7 @@ static void exec_op(char* text0) {
       if (!e->bound) { struct sockaddr_in a; uv_ip4_addr("127.0.0.1", 0, &a); r = uv_tcp_bind((uv_tcp_t*) e->ptr, (struct sockaddr*) &a, 0); if (r) RET(r); e->bound = 1; }
       RET(uv_listen((uv_stream_t*) e->ptr, 8, conn_cb));
     case K_PIPE:
+      if (e->conn_pending) BAD;   /* uv_listen while a connect is pending: not a legal program */
       if (!e->bound) { snprintf(e->path, sizeof e->path, "%s/sock/h%d", scratch, i); r = uv_pipe_bind((uv_pipe_t*) e->ptr, e->path); if (r) RET(r); e->bound = 1; }
       RET(uv_listen((uv_stream_t*) e->ptr, 8, conn_cb));
     default: BAD;
@@ -390,6 +396,28 @@ static void exec_op(char* text0) {
     uv_udp_send_t* req = malloc(sizeof *req); static char byte = 'x'; uv_buf_t b = uv_buf_init(&byte, 1);
     int r = uv_udp_send(req, (uv_udp_t*) H[i].ptr, &b, 1, NULL, send_cb); free(req); RET(r);
   }
+  if (!strcmp(o, "connect_bad") && nw == 2 && nr < MAXR && live(i) && H[i].kind == K_PIPE && !uv_is_closing(H[i].ptr)
+      && !H[i].bound && !H[i].conn_pending) {
+    /* uv_pipe_connect with an empty name: the error is deferred to the next loop tick (pipe.c:229-249) */
+    uv_connect_t* req = malloc(sizeof *req);
+    R[nr].kind = 2; R[nr].state = H_LIVE; R[nr].ptr = req; R[nr].handle = i; nr++;
+    H[i].conn_pending = 1;
+    uv_pipe_connect(req, (uv_pipe_t*) H[i].ptr, "", connect_cb);
+    RET(0);
+  }
+  if (!strcmp(o, "reject") && nw == 2) {   /* requests the API refuses synchronously: nothing may stay registered */
+    if (!strcmp(w[1], "getaddrinfo")) {
+      static char host[301]; memset(host, 'a', 300); host[300] = 0;
+      uv_getaddrinfo_t* req = malloc(sizeof *req); int r = uv_getaddrinfo(&loop, req, gai_cb, host, NULL, NULL); free(req); RET(r);
+    }
+    if (!strcmp(w[1], "getnameinfo")) {
+      uv_getnameinfo_t* req = malloc(sizeof *req); int r = uv_getnameinfo(&loop, req, gni_cb, NULL, 0); free(req); RET(r);
+    }
+    if (!strcmp(w[1], "random")) {
+      static char b[4]; uv_random_t* req = malloc(sizeof *req); int r = uv_random(&loop, req, b, sizeof b, 1, rnd_cb); free(req); RET(r);
+    }
+    BAD;
+  }
   if (!strcmp(o, "cancel") && nw == 2) {
     int r = rnum(w[1]);
     if (r < 0 || r >= nr || R[r].state != H_LIVE || R[r].kind != 0) BAD;
@@ -432,7 +460,7 @@ static void exec_op(char* text0) {
 int main(int argc, char** argv) {
   static char line[16384];
   setenv("UV_THREADPOOL_SIZE", "1", 1);
-  setvbuf(stdout, NULL, _IOFBF, 1 << 16);
+  setvbuf(stdout, NULL, _IOLBF, 1 << 16);   /* line buffered: a sanitizer abort must not lose the log */
   if (argc > 1) snprintf(scratch, sizeof scratch, "%s", argv[1]);
   { char p[200]; snprintf(p, sizeof p, "%s/watch", scratch); mkdir(p, 0700); snprintf(p, sizeof p, "%s/sock", scratch); mkdir(p, 0700); }
   /* process-wide one-time state (signal lock pipe, clock probing) is created by a throw-away loop */
